@@ -65,7 +65,7 @@ MANIFEST = {
                  "translation of the server-side, FTP and client-side methods, and a differential rig",
     "design_ref": "5/C17",
 }
-MODULES = ["PrimaiteModel.Props.C17", "PrimaiteModel.Props.C17Run", "PrimaiteModel.Props.C17Recv", "PrimaiteModel.Props.C17Ftp",
+MODULES = ["PrimaiteModel.Props.C17", "PrimaiteModel.Props.C17Gen", "PrimaiteModel.Props.C17Run", "PrimaiteModel.Props.C17Recv", "PrimaiteModel.Props.C17Ftp",
            "PrimaiteModel.Props.C17Client", "PrimaiteModel.Lemmas.DatabaseReach"]
 EXE = "drv_c17"
 
